@@ -45,6 +45,12 @@ theorem C07_tree_of_tokens_ext (ps : List (Gap × PTok)) (g : Gap)
   unfold buildOperatorTree
   rw [C07_roundtrip_ext ps g hp ha]
 
+/-- `<digits>e`, a sign and a token that is not a word are three tokens, however tightly written -/
+theorem C07_sign_before_string : tokenize cl!"1e+\"3\"" = .ok [.identifier cl!"1e", .plus, .string cl!"3"] :=
+  Evalexpr.Spec.C07_sign_before_string
+theorem C07_sign_before_paren : tokenize cl!"2E-(x)" =
+    .ok [.identifier cl!"2E", .minus, .lBrace, .identifier cl!"x", .rBrace] := Evalexpr.Spec.C07_sign_before_paren
+
 /-- two admissible gap assignments for the same tokens give the same token sequence -/
 theorem C07_invariance (toks : List PTok) (gs₁ gs₂ : List Gap) (g₁ g₂ : Gap)
     (h₁ : gs₁.length = toks.length) (h₂ : gs₂.length = toks.length)
